@@ -76,7 +76,8 @@ pub fn gen_issuer_key(r: &mut Rng) -> (KeyId, Option<String>) {
 }
 
 pub fn gen_kb(r: &mut Rng) -> KbSetting {
-    let (key, alg) = match r.below(4) {
+    let (key, alg) = match r.below(5) {
+        4 => (KeyId::HolderEcOps, Some("ES256".to_string())),
         0 => (KeyId::HolderEc, None),
         1 => (KeyId::HolderEc, Some("ES256".to_string())),
         2 => (KeyId::HolderEc2, Some("ES256".to_string())),
